@@ -161,9 +161,15 @@ class SccContext:
 
   def backspace(self):
     """Move the cursors in a column to the left"""
-    self.get_caption_to_process().get_current_text().backspace()
-    (row, indent) = self.get_caption_to_process().get_cursor()
-    self.get_caption_to_process().set_cursor_at(row, max(indent - 1, 0))
+    processed_caption = self.get_caption_to_process()
+
+    if processed_caption is None:
+      LOGGER.warning("No current SCC caption nor content initialized")
+      return
+
+    processed_caption.get_current_text().backspace()
+    (row, indent) = processed_caption.get_cursor()
+    processed_caption.set_cursor_at(row, max(indent - 1, 0))
 
   def paint_on_active_caption(self, time_code: SmpteTimeCode):
     """Initialize active caption for paint-on style"""
@@ -381,14 +387,13 @@ class SccContext:
       # Erase buffered caption
       self.new_buffered_caption()
 
-    elif control_code is SccControlCode.TO1:
-      self.get_caption_to_process().indent_cursor(1)
-
-    elif control_code is SccControlCode.TO2:
-      self.get_caption_to_process().indent_cursor(2)
-
-    elif control_code is SccControlCode.TO3:
-      self.get_caption_to_process().indent_cursor(3)
+    elif control_code in (SccControlCode.TO1, SccControlCode.TO2, SccControlCode.TO3):
+      # Tab Offset: move the cursor one to three columns to the right
+      processed_caption = self.get_caption_to_process()
+      if processed_caption is not None:
+        processed_caption.indent_cursor(
+          {SccControlCode.TO1: 1, SccControlCode.TO2: 2, SccControlCode.TO3: 3}[control_code]
+        )
 
     elif control_code is SccControlCode.CR:
       # Roll the displayed caption up one row (Roll-Up)
